@@ -25,6 +25,7 @@ inductive Mut where
   | addFins (fs : List String)
   | removeFins (fs : List String)
   | setSpec (s : String)
+  | appendSpec (s : String)     -- NOT idempotent: applied twice it shows
   | setPhaseTD
   | noop
   | fail
@@ -46,6 +47,7 @@ def Mut.apply (m : Mut) (r : Res) : Option Res :=
   | .addFins fs => some { r with fins := fs.foldl finsAdd r.fins }
   | .removeFins fs => some { r with fins := fs.foldl finsRemove r.fins }
   | .setSpec s => some { r with spec := s }
+  | .appendSpec s => some { r with spec := r.spec ++ s }
   | .setPhaseTD => some { r with phase := .tearingDown }
   | .noop => some r
   | .fail => none
